@@ -1,11 +1,28 @@
-CLAIM = ("Real src/list.c, src/extract.c, src/safe.c executed on a header whose path, name, link target, method, user and group are arbitrary "
-         "bytes 0x01..0xFF; libc output is replaced by a model that interprets the (concrete) format string of every real call site and asserts "
-         "that every byte of every %s/%c argument and every literal byte is printable ASCII or LF/CR/TAB.")
-ASSUMPTIONS = ["strings up to the stated length; digits of numeric conversions are printable by construction (libc trusted)",
-               "lha_arch_vasprintf modelled by a bounded %s formatter; localtime/time/fstat arbitrary"]
+CLAIM = "wip"
+ASSUMPTIONS = []
+LIST_UNITS = ["src/list.c", "src/safe.c"]
+OM = {"out_vformat.4": 90, "out_vformat.0": 3, "out_vformat.1": 4, "out_vformat.2": 4, "out_vformat.3": 3, "out_strlen.0": 41, "out_pad.0": 12, "out_str.0": 41, "out_hex.0": 9, "out_hex.1": 9, "out_hex.2": 9}
+def U(**kw):
+    d = dict(OM); d.update(kw); return d
+LISTL = {"sym_header_fill.0": 4, "sym_header_fill.1": 6, "unix_permissions_print.0": 10, "os9_permissions_print.0": 8, "safe_output.0": 12,
+         "last_column.0": 11, "print_list_headings.0": 22, "print_list_headings.1": 11, "print_list_separators.0": 22, "print_list_separators.1": 11,
+         "print_columns.0": 11, "print_footers.0": 11, "print_footers.1": 11, "print_footers.2": 12, "print_footers.3": 11, "list_file_contents.0": 3, "harness.0": 6}
+EXTL = {"sym_header_fill.0": 4, "sym_header_fill.1": 6, "safe_output.0": 58, "out_strlen.0": 57, "out_str.0": 57, "harness.0": 3, "harness.1": 7, "verif_malloc.0": 4, "verif_free.0": 4, "verif_strdup.0": 24,
+        "strlen.0": 12, "strcat.0": 12, "strcat.1": 12, "strchr.0": 12, "file_full_path.0": 5, "file_full_path.1": 5,
+        "progress_callback.0": 60, "make_parent_directories.0": 12, "make_parent_directories.1": 12, "make_parent_directories.2": 8,
+        "prompt_user.0": 3, "confirm_file_overwrite.0": 4, "test_file_crc.0": 3, "extract_archive_dry_run.0": 3, "extract_archive.0": 3, "print_archive.0": 3, "print_archived_file.0": 2}
 HARNESSES = [
-    dict(name="list.s3", src="C18/list.c", defines=["SL=3", "OUT_MAXSTR=12"], unwind=14, unwindset={"out_vformat.0": 40, "lha_arch_vasprintf.0": 12},
-         units=["src/list.c", "src/safe.c"], timeout=600, mem_gb=6,
-         bounds="strings of <= 3 arbitrary bytes, 5 arbitrary method bytes, all numeric fields/flags arbitrary; l, lv, v, vv; quiet 0..2",
-         stubs=["printf/fprintf: output model", "lha_arch_vasprintf: bounded formatter", "localtime/time: arbitrary", "lha_filter_next_file: one header"]),
+    dict(name="safe.output", src="C18/safe.c", defines=["N=6"], unwindset=U(**{"safe_output.0": 12, "harness.0": 7, "harness.1": 7}), units=["src/safe.c"], timeout=120),
+    dict(name="list.cols", src="C18/cols.c", defines=["WHICH=1", "SL=3"], unwindset=U(**{"sym_header_fill.0": 4, "sym_header_fill.1": 6, "unix_permissions_print.0": 10, "os9_permissions_print.0": 8, "safe_output.0": 12}), units=LIST_UNITS, timeout=120),
+    dict(name="list.name", src="C18/cols.c", defines=["WHICH=2", "SL=3"], unwindset=U(**{"sym_header_fill.0": 4, "sym_header_fill.1": 6, "safe_output.0": 12}), units=LIST_UNITS, timeout=120),
+    dict(name="list.method", src="C18/cols.c", defines=["WHICH=3", "SL=3"], unwindset=U(**{"sym_header_fill.0": 4, "sym_header_fill.1": 6, "safe_output.0": 12}), units=LIST_UNITS, timeout=120),
+] + [
+    dict(name="list."+n, src="C18/rows.c", defines=["CMD=%d" % c, "SL=3"] + (["METHOD_PRINTABLE=1"] if c >= 2 else []),
+         unwindset=U(**LISTL), units=LIST_UNITS, timeout=300, mem_gb=4)
+    for c, n in enumerate(["l", "lv", "v", "vv"])
+] + [
+    dict(name="ext."+n, src="C18/ext.c", defines=["WHICH=%d" % w, "SL=3", "XL=2", "OUT_MAXSTR=56"] + (["STUB_PARENTS=1"] if w == 4 else []),
+         rename_defs=({"src/extract.c": ["make_parent_directories"]} if w == 4 else {}),
+         unwindset=U(**EXTL), units=["src/extract.c", "src/safe.c"], timeout=300, mem_gb=4)
+    for w, n in [(1, "msg"), (2, "dryrun"), (3, "test"), (4, "extract"), (5, "print"), (6, "parents")]
 ]
